@@ -82,6 +82,21 @@ theorem intermediateRoot_order_independent {oj oj' op op' : List Nat} (pj : oj.P
   unfold intermediate
   simp only [finalise_perm pj s, flush_order_independent pp]
 
+/-- `updateStakingTrie` in the presence of records that fail to encode: the trie content and the error flag are the
+same in every order of `range stakingRecordsDirty`. -/
+theorem updateStakingTrie_order_independent {o o' : List Nat} (p : o.Perm o') (recs : Nat → Option Nat) (t : Content) :
+    updateStakingTrie o recs t = updateStakingTrie o' recs t :=
+  foldl_perm _ (stakingStep_comm recs) p (t, false)
+
+/-- F-C06c: before 6c7591b the loop returned at the first failing record, and the content depended on the order:
+record 1 does not encode, record 2 does; visited as [1, 2] record 2 is not written, visited as [2, 1] it is. -/
+theorem old_updateStakingTrie_order_dependent :
+    let recs : Nat → Option Nat := fun k => if k = 2 then some 5 else none
+    (updateStakingTrieOld [1, 2] recs (fun _ => none)).1 2 = none ∧
+    (updateStakingTrieOld [2, 1] recs (fun _ => none)).1 2 = some 5 ∧
+    (updateStakingTrie [1, 2] recs (fun _ => none)).1 2 = some 5 := by
+  decide
+
 /-- `GetValidators` returns THE descending arrangement of what it collected: any list that is sorted by `Validator.Less`
 (reversed) and is a permutation of the collected validators is the result. -/
 theorem getValidators_spec {o e : List VKey} (hs : e.Pairwise (fun a b => VKey.ge a b = true)) (hp : o.Perm e) :
